@@ -13,7 +13,7 @@ from tools.vlib import g_bool, g_list, g_opt
 UNKEYED = ("stream_t", "stream_n", "single", "pass")
 KEYED = ("keyed_t", "keyed_n", "ksingle")
 KINDS = UNKEYED + KEYED
-TOP = ("top_order", "top_fold", "top_merge", "top_keyed_order", "top_partial")
+TOP = ("top_order", "top_fold", "top_merge", "top_keyed_order", "top_partial", "top_kmerge")
 
 # ---------------------------------------------------------------- Python port (enumeration only)
 
@@ -105,6 +105,14 @@ def p_ksingle(m, last, force, ask):
 
 def p_top(h, force, ask):
     k = h["kind"]
+    if k == "top_kmerge":
+        ne = [q for _, q in h["m"] if q] + [q for _, q in h["m2"] if q]
+        if not ne:
+            return
+        if not force and ask(0, 1) == 1:
+            return
+        ask(0, len(ne) - 1)
+        return
     if k in ("top_keyed_order", "top_partial"):
         ne = [q for _, q in h["m"] if q]
         if not ne:
@@ -143,7 +151,45 @@ def p_top(h, force, ask):
             ask(0, 1)
 
 
+def group_first_seen(pairs):
+    g, idx = [], {}
+    for k, v in pairs:
+        if k not in idx:
+            idx[k] = len(g)
+            g.append([k, []])
+        g[idx[k]][1].append(v)
+    return g
+
+
 def p_inline(c, ask):
+    if c["kind"] == "kshuffle":
+        d = dict((k, vs) for k, vs in group_first_seen(c["input"]))
+        for k in c.get("_order") or list(d):
+            n = len(d[k])
+            for src in range(0, n - 1):
+                ask(src, n - 1)
+        return
+    if c["kind"] == "partial":
+        g = [list(vs) for _, vs in group_first_seen(c["input"])]
+        while True:
+            ne = [q for q in g if q]
+            if not ne:
+                return
+            ne[ask(0, len(ne) - 1)].pop(0)
+    if c["kind"] == "kmerge":
+        ga, gb = dict(group_first_seen(c["first"])), dict(group_first_seen(c["second"]))
+        keys = []
+        for k, _ in c["first"] + c["second"]:
+            if k not in keys:
+                keys.append(k)
+        for k in keys:
+            a, b = len(ga.get(k, [])), len(gb.get(k, []))
+            while a > 0 and b > 0:
+                if ask(0, 1) == 1:
+                    b -= 1
+                else:
+                    a -= 1
+        return
     if c["kind"] == "shuffle":
         n = len(c["input"])
         for src in range(0, n - 1):
@@ -166,6 +212,8 @@ def inline_scripts(c, limit=4000):
 
 
 def can_nt(h):
+    if h["kind"] == "top_kmerge":
+        return any(q for _, q in h["m"]) or any(q for _, q in h["m2"])
     if h["kind"] in ("top_keyed_order", "top_partial"):
         return any(q for _, q in h["m"])
     if h["kind"] == "top_merge":
@@ -478,7 +526,29 @@ def g_thook(h):
         return "(TMerge %s %s)" % (g_ln(h["q"]), g_ln(h["q2"]))
     if k in ("top_keyed_order", "top_partial"):
         return "(TKeyed %s %s)" % (g_bool(k == "top_partial"), g_map(h["m"]))
+    if k == "top_kmerge":
+        return "(TKMerge %s %s)" % (g_map(h["m"]), g_map(h["m2"]))
     raise ValueError(k)
+
+
+def merged(m):
+    d = {}
+    for k, q in m:
+        d.setdefault(k, []).extend(q)
+    return d
+
+
+def in_impl_order(h, before):
+    """present a keyed observation hook's map(s) in the implementation's iteration order"""
+    if "m" not in h:
+        return h
+    d = merged(h["m"])
+    if h["kind"] == "top_kmerge":
+        d2 = merged(h["m2"])
+        n1 = len(d)
+        o = order_of(before)
+        return dict(h, m=[[k, d.get(k, [])] for k in o[:n1]], m2=[[k, d2.get(k, [])] for k in o[n1:]])
+    return dict(h, m=[[k, d.get(k, [])] for k in order_of(before)])
 
 
 def top_term(case, res):
@@ -489,26 +559,31 @@ def top_term(case, res):
     if "before" not in r:
         return 3
     ds = r.get("ds_used", rnd.get("ds", []))
-    h = case["hook"]
-    if "m" in h:  # present the map in the implementation's iteration order (the order oracle)
-        d = {}
-        for k, q in h["m"]:
-            d.setdefault(k, []).extend(q)
-        h = dict(h, m=[[k, d.get(k, [])] for k in order_of(r["before"])])
+    h = in_impl_order(case["hook"], r["before"])
     return "(top_verdict %s %s %s %s)" % (g_thook(h), g_bool(rnd.get("force", False)),
                                            g_script(ds), g_obs(r))
 
 
 def inline_term(case, res):
+    keyed_kind = case["kind"] in ("kshuffle", "partial", "kmerge")
     if res.get("bad"):
         out, used = "None", 0
     elif "out" in res:
-        if len(res["out"]) != 1:
+        o = res["kout"] if keyed_kind else res["out"]
+        if len(o) != 1:
             return 3
-        out, used = "(Some %s)" % g_ln(res["out"][0]), res["used"]
+        out, used = "(Some %s)" % (g_kv(o[0]) if keyed_kind else g_ln(o[0])), res["used"]
     else:
         return 3
     ds = g_script(res.get("ds_used", case.get("ds", [])))
+    if case["kind"] == "kshuffle":
+        if res.get("group_order") is None:
+            return 3
+        return "(kshuffle_verdict %s %s %s %s %s)" % (g_kv(case["input"]), g_ln(res["group_order"]), ds, out, g_nat(used))
+    if case["kind"] == "partial":
+        return "(partial_verdict %s %s %s %s)" % (g_kv(case["input"]), ds, out, g_nat(used))
+    if case["kind"] == "kmerge":
+        return "(kmerge_verdict %s %s %s %s %s)" % (g_kv(case["first"]), g_kv(case["second"]), ds, out, g_nat(used))
     if case["kind"] == "shuffle":
         return "(shuffle_verdict %s %s %s %s)" % (g_ln(case["input"]), ds, out, g_nat(used))
     return "(merge_verdict %s %s %s %s %s)" % (g_ln(case["first"]), g_ln(case["second"]), ds, out, g_nat(used))
